@@ -127,3 +127,38 @@ Theorem sem_int_ovf_is_docspec : forall o ks kd a b r fs fu,
               fu = (if snd (ovf_defined o) then Some u else None).
 Proof. exact int_ovf_refines_doc. Qed.
 Print Assumptions sem_int_ovf_is_docspec.
+
+(* ---- GVN: the value of a phi (mir-gen.c gvn_phi_val; model C01/PhiVal.v) ------------------------------
+   A bb_insn's value is (is-constant flag, number): the constant itself, or the value number of its
+   expression - both small integers in ONE field.  [phi_cmp_flag]/[phi_cmp_val] (coq/gen/C01PhiVal.v,
+   regenerated from the source text on every run by tools/tr_c01_phival.py) say which of the two the scan
+   of the phi inputs compares.  With the scan as it stands in the tree: *)
+From MirV Require Import C01.PhiVal C01.PhiValProofs gen.C01PhiVal.
+Import ListNotations.
+Open Scope Z_scope.
+
+(* a phi is folded to `mov r, K` only if EVERY input is the constant K (so every input evaluates to K
+   whatever the value numbers stand for) - any number of inputs, any constants and numbers *)
+Theorem gvn_phi_const_fold_sound : forall idx ins K, ins <> [] ->
+  phi_val phi_cmp_flag phi_cmp_val idx ins = (true, K) ->
+  Forall (fun d => d = Some (G true K) /\ forall rho, option_map (den rho) d = Some K) ins.
+Proof. exact (phi_const_sound phi_cmp_flag phi_cmp_val eq_refl eq_refl). Qed.
+Print Assumptions gvn_phi_const_fold_sound.
+
+(* a phi takes over the value (c, n) of its inputs only if every input carries exactly (c, n): all of
+   them evaluate to what (c, n) stands for *)
+Theorem gvn_phi_number_sound : forall ins c n, ins <> [] ->
+  phi_same phi_cmp_flag phi_cmp_val ins = Some (G c n) ->
+  forall rho, Forall (fun d => option_map (den rho) d = Some (den rho (G c n))) ins.
+Proof. exact (phi_number_sound phi_cmp_flag phi_cmp_val eq_refl eq_refl). Qed.
+Print Assumptions gvn_phi_number_sound.
+
+(* comparing the numbers alone is not enough: the constant 3 and the value number 3 then count as one
+   value - the phi of (constant 3, expression number 3) is folded to 3 although the expression evaluates
+   to 9; in the other order the phi is taken for the expression *)
+Theorem gvn_phi_flags_not_compared_refuted :
+  (exists ins rho, phi_val false true 0 ins = (true, 3) /\ exists g, In (Some g) ins /\ den rho g <> 3) /\
+  (exists ins rho, phi_same false true ins = Some (G false 3) /\
+                   exists g, In (Some g) ins /\ den rho g <> den rho (G false 3)).
+Proof. exact phi_flags_not_compared_refuted_both. Qed.
+Print Assumptions gvn_phi_flags_not_compared_refuted.
